@@ -477,7 +477,9 @@ FEAT_MERGE = '{"merge", "delete", "restart", "batch"}'
 FEAT_MAP = '{"batch", "delete", "restart", "sync", "merge"}'
 GEN_CRASH = [dict(consts=dict(Features=FEAT_CRASH, MaxOps=8, MaxFaults=2, MaxMerges=0, MaxRestarts=1), num=300, thorough_num=3000, depth=80)]
 GEN_BATCH = [dict(consts=dict(Features=FEAT_BATCH, MaxOps=8, MaxBatch=3, MaxFaults=2, MaxMerges=0, MaxRestarts=1, Vals='{1, 3}'), num=300, thorough_num=3000, depth=80)]
-GEN_MERGEC = [dict(consts=dict(Features=FEAT_MERGEC, MaxOps=6, MaxFaults=3, MaxMerges=2, MaxRestarts=2, MaxBatch=2, Vals='{1, 2}', BigVals='{}'), num=300, thorough_num=3000, depth=100)]
+GEN_MERGEC = [dict(consts=dict(Features=FEAT_MERGEC, MaxOps=6, MaxFaults=3, MaxMerges=2, MaxRestarts=2, MaxBatch=2, Vals='{1, 2}', BigVals='{}'), num=200, thorough_num=2000, depth=100),
+              # process deaths only inside Merge and inside adoption, no batches: more merges per behaviour
+              dict(consts=dict(Features='{"merge", "delete", "crash", "restart"}', Focus='merge', Keys='{1, 2, 3}', MaxOps=5, MaxFaults=3, MaxMerges=3, MaxRestarts=2, Vals='{1, 2}', BigVals='{}'), num=300, thorough_num=3000, depth=120)]
 GEN_MERGE = [dict(consts=dict(Features=FEAT_MERGE, MaxOps=7, MaxFaults=0, MaxMerges=2, MaxRestarts=2, MaxBatch=2), num=200, thorough_num=2000, depth=100),
              # every Open chooses its own file-size limit (merge output needing fewer / more files than the input)
              dict(consts=dict(Features=FEAT_MERGE, MaxOps=7, MaxFaults=0, MaxMerges=2, MaxRestarts=3, MaxBatch=2, Limits='{1, 2, 3}'), num=200, thorough_num=2000, depth=100)]
